@@ -38,7 +38,7 @@ func main() {
 	budget := 5 * time.Minute
 	if run.Thorough() {
 		D, E = 3, 1 // small scenarios get E+1 (see Bounds)
-		budget = 45 * time.Minute
+		budget = 90 * time.Minute
 	}
 	run.Set("delay_bound", D)
 	run.Set("server_deviation_bound", E)
